@@ -121,3 +121,912 @@ Proof.
   - destruct o as [og|]; [|discriminate]. inversion Hn; subst. apply Hr.
   - subst o. exact Ho.
 Qed.
+
+(* ====================================================================== *)
+(* owners as written                                                       *)
+(* ====================================================================== *)
+
+Inductive oref := OName (r : nref) | OStar | OWild (r : nref).
+
+Definition oref_text (x : oref) : list N :=
+  match x with OName r => nref_text r | OStar => S_STAR | OWild r => 42 :: 46 :: nref_text r end.
+
+(* (is it a wildcard owner?, the name) *)
+Definition owner := (bool * dname)%type.
+
+(* an owner that expands to "*.x" is the wildcard at x however it was written (fix 0286676) *)
+Definition star_rule (n : dname) : owner :=
+  match labels n with
+  | l0 :: ((_ :: _) as rest) => if leqb l0 S_STAR then (true, mkname rest) else (false, n)
+  | _ => (false, n)
+  end.
+
+Definition resolve_owner (o : option dname) (x : oref) : option owner :=
+  match x with
+  | OName r => option_map star_rule (resolve o r)
+  | OStar => option_map (fun og => (true, og)) o
+  | OWild r => option_map (fun n => (true, n)) (resolve o r)
+  end.
+
+Definition to_mw (p : owner) : mwild := if fst p then MWildcard (snd p) else MNormal (snd p).
+
+(* an owner written as a name does not use the wildcard syntax (that is OStar / OWild), and
+   is not a number (D: an all-digit first field is a TTL to this grammar) *)
+Definition oref_ok (o : option dname) (x : oref) : Prop :=
+  match x with
+  | OName r => nref_ok o r /\ nref_text r <> S_STAR /\ (forall t, nref_text r <> 42 :: 46 :: t) /\ all_digits (nref_text r) = false
+  | OStar => o <> None
+  | OWild r => nref_ok o r
+  end.
+
+Definition origin_ok (o : option dname) : Prop := match o with Some og => name_ok og | None => True end.
+
+Lemma normal_or_star_rule n : name_ok n -> normal_or_star n = Ok (to_mw (star_rule n)).
+Proof.
+  intro Hn. unfold normal_or_star, star_rule.
+  destruct (labels n) as [|l0 [|l1 t]] eqn:El; cbn [len_ge idx nth_error bind slice_from skipn]; try reflexivity.
+  destruct (leqb l0 S_STAR); cbn [bind]; [|reflexivity].
+  assert (Hw : wf_labels (l1 :: t)).
+  { destruct Hn as [[Hl _] _]. rewrite El in Hl. apply (wf_labels_suffix [l0] (l1 :: t)); [exact Hl|discriminate]. }
+  rewrite (from_labels_mkname _ Hw). reflexivity.
+Qed.
+
+Lemma oref_parse o x p : origin_ok o -> oref_ok o x -> resolve_owner o x = Some p ->
+  parse_domain_or_wildcard o (oref_text x) = Ok (to_mw p).
+Proof.
+  intros Ho Hx Hp. destruct x as [r| |r]; cbn [oref_ok resolve_owner oref_text] in *.
+  - destruct Hx as (Hr & H1 & H2 & _). destruct (resolve o r) as [n|] eqn:En; [|discriminate]. inversion Hp; subst.
+    rewrite (pdw_plain o _ (proj1 (nref_text_lc o r Ho Hr)) H1 H2), (nref_parse o r n Ho Hr En). cbn [bind].
+    apply normal_or_star_rule. eapply resolve_ok; eassumption.
+  - destruct o as [og|]; [|contradiction]. inversion Hp; subst. reflexivity.
+  - destruct (resolve o r) as [n|] eqn:En; [|discriminate]. inversion Hp; subst.
+    rewrite (pdw_star_dot o _ (proj1 (nref_text_lc o r Ho Hx))), (nref_parse o r n Ho Hx En). reflexivity.
+Qed.
+
+Lemma oref_text_facts o x : origin_ok o -> oref_ok o x ->
+  octets (oref_text x) /\ oref_text x <> [] /\ noupper (oref_text x) /\ all_digits (oref_text x) = false.
+Proof.
+  intros Ho Hx. destruct x as [r| |r]; cbn [oref_ok oref_text] in *.
+  - destruct Hx as (Hr & _ & _ & Hd). destruct (nref_text_lc o r Ho Hr) as [Hne Hlc].
+    split; [apply lc_octets; exact Hlc|]. split; [exact Hne|]. split; [apply lc_noupper; exact Hlc|exact Hd].
+  - split; [repeat constructor; lia|]. split; [discriminate|]. split; [repeat constructor|reflexivity].
+  - destruct (nref_text_lc o r Ho Hx) as [Hne Hlc].
+    split; [repeat constructor; try lia; apply lc_octets; exact Hlc|]. split; [discriminate|].
+    split; [repeat constructor; apply lc_noupper; exact Hlc|reflexivity].
+Qed.
+
+Lemma star_rule_ok n : name_ok n -> name_ok (snd (star_rule n)) /\ (fst (star_rule n) = false -> first_label n <> S_STAR \/ True).
+Proof.
+  intro Hn. split; [|auto]. unfold star_rule. destruct (labels n) as [|l0 [|l1 t]] eqn:El; try exact Hn.
+  destruct (leqb l0 S_STAR); [|exact Hn]. cbn [snd].
+  destruct Hn as [[Hl Hlen] Ha]. rewrite El in Hl.
+  pose proof (wf_labels_suffix [l0] (l1 :: t) Hl ltac:(discriminate)) as Hw. split; [split; [exact Hw|reflexivity]|].
+  unfold ascii_nodot in *. rewrite El in Ha. apply Forall_cons_iff in Ha. apply Ha.
+Qed.
+
+(* ====================================================================== *)
+(* RDATA as written                                                        *)
+(* ====================================================================== *)
+
+Inductive rda :=
+| A_A (a : N) | A_Name (r : nref) | A_SOA (m r : nref) (a b c d e : N) | A_Octets (os : list N)
+| A_MINFO (r e : nref) | A_MX (p : N) (e : nref) | A_AAAA (g : list N) | A_SRV (p w po : N) (t : nref).
+
+Definition rda_resolve (o : option dname) (x : rda) : option rdata :=
+  match x with
+  | A_A a => Some (RD_A a)
+  | A_Name r => option_map RD_Name (resolve o r)
+  | A_SOA m r a b c d e =>
+    match resolve o m, resolve o r with Some m', Some r' => Some (RD_SOA m' r' a b c d e) | _, _ => None end
+  | A_Octets os => Some (RD_Octets os)
+  | A_MINFO r e => match resolve o r, resolve o e with Some r', Some e' => Some (RD_MINFO r' e') | _, _ => None end
+  | A_MX p e => option_map (RD_MX p) (resolve o e)
+  | A_AAAA g => Some (RD_AAAA g)
+  | A_SRV p w po t => option_map (RD_SRV p w po) (resolve o t)
+  end.
+
+Definition rda_ok (o : option dname) (x : rda) : Prop :=
+  match x with
+  | A_A a => a < 4294967296
+  | A_Name r => nref_ok o r
+  | A_SOA m r a b c d e => nref_ok o m /\ nref_ok o r /\ a < 4294967296 /\ b < 4294967296 /\ c < 4294967296 /\ d < 4294967296 /\ e < 4294967296
+  | A_Octets os => octets os
+  | A_MINFO r e => nref_ok o r /\ nref_ok o e
+  | A_MX p e => p < 65536 /\ nref_ok o e
+  | A_AAAA g => v6_ok g
+  | A_SRV p w po t => p < 65536 /\ w < 65536 /\ po < 65536 /\ nref_ok o t
+  end.
+
+Lemma digits_not_type s : s <> [] -> Forall isd s -> rtype_from_str s = None.
+Proof.
+  intros Hne Hd. destruct (rtype_from_str s) as [t|] eqn:E; [|reflexivity].
+  apply rtype_from_str_upper in E as (c & r & -> & Hc). apply Forall_cons_iff in Hd as [Hd _].
+  apply isd_range in Hd. apply is_upper_true in Hc. lia.
+Qed.
+
+Section Rda.
+  Variable ip : ipcodec.
+  Hypothesis Hip : codec_rt ip.
+
+  Definition rda_toks (x : rda) : list (list N) :=
+    match x with
+    | A_A a => [show_v4 ip a]
+    | A_Name r => [nref_text r]
+    | A_SOA m r a b c d e => [nref_text m; nref_text r; show_dec a; show_dec b; show_dec c; show_dec d; show_dec e]
+    | A_Octets os => [os]
+    | A_MINFO r e => [nref_text r; nref_text e]
+    | A_MX p e => [show_dec p; nref_text e]
+    | A_AAAA g => [show_v6 ip g]
+    | A_SRV p w po t => [show_dec p; show_dec w; show_dec po; nref_text t]
+    end.
+
+  Lemma rda_resolve_ok o x d : origin_ok o -> rda_ok o x -> rda_resolve o x = Some d -> rdata_ok d.
+  Proof.
+    intros Ho Hx Hd. destruct x; cbn [rda_ok rda_resolve] in *;
+      repeat match goal with H : _ /\ _ |- _ => destruct H end;
+      repeat match goal with
+             | H : context [resolve o ?r] |- _ =>
+               let E := fresh "E" in destruct (resolve o r) eqn:E; cbn [option_map] in H; try discriminate H;
+               eapply resolve_ok in E; [|exact Ho|assumption]
+             end;
+      inversion Hd; subst; cbn [rdata_ok]; auto 10.
+  Qed.
+
+  Lemma rda_parse o ty x d :
+    origin_ok o -> rtype_known ty = true -> rda_ok o x -> rda_resolve o x = Some d ->
+    shape_of_rdata d = shape_of_type ty ->
+    try_parse_rtype_with_data ip o (map dup (show_rtype ty :: rda_toks x)) = Ok (Some (ty, d)).
+  Proof.
+    intros Ho Hk Hx Hd Hs. unfold try_parse_rtype_with_data. cbn [map is_nil idx nth_error bind].
+    change (fst (dup (show_rtype ty))) with (show_rtype ty). rewrite (show_rtype_parse ty Hk).
+    destruct x; cbn [rda_ok rda_resolve] in *;
+      repeat match goal with H : _ /\ _ |- _ => destruct H end;
+      repeat match goal with
+             | H : context [resolve o ?r] |- _ =>
+               let E := fresh "E" in destruct (resolve o r) eqn:E; cbn [option_map] in H; try discriminate H;
+               eapply nref_parse in E; [|exact Ho|assumption]
+             end;
+      inversion Hd; subst; clear Hd;
+      apply known_cases in Hk; unfold known_types in Hk;
+      repeat (destruct Hk as [<-|Hk];
+              [ cbv in Hs; try discriminate Hs;
+                cbv [is_name_type is_octets_type]; nclosed; cbn [orb andb negb];
+                cbn [rda_toks map len_is idx nth_error bind fst snd dup];
+                repeat match goal with E : parse_domain o _ = Ok _ |- _ => rewrite E; clear E end;
+                rewrite ?show_dec_parse by (unfold U32_MAX, U16_MAX; lia);
+                cbn [opt_of_res bind]; try reflexivity | ]);
+      try destruct Hk.
+    - rewrite (proj1 (proj1 Hip a Hx)). reflexivity.
+    - rewrite (proj1 (proj2 Hip g Hx)). reflexivity.
+  Qed.
+End Rda.
+
+(* ====================================================================== *)
+(* entries                                                                 *)
+(* ====================================================================== *)
+
+Record frr := { f_owner : option oref; f_ttl : option N; f_class : bool; f_ttl_first : bool; f_type : N; f_rd : rda }.
+Inductive fentry := FOrigin (r : nref) | FRR (x : frr).
+
+(* which of the ten field shapes the entry is written in *)
+Definition frr_shape (x : frr) : rr_shape :=
+  match f_owner x, f_ttl x, f_class x with
+  | Some _, Some _, true => if f_ttl_first x then ShOwnerTtlClass else ShOwnerClassTtl
+  | Some _, Some _, false => ShOwnerTtl
+  | Some _, None, true => ShOwnerClass
+  | Some _, None, false => ShOwner
+  | None, Some _, true => if f_ttl_first x then ShTtlClass else ShClassTtl
+  | None, Some _, false => ShTtl
+  | None, None, true => ShClass
+  | None, None, false => ShBare
+  end.
+
+(* the fields in the order of the shape, as octet strings *)
+Definition shape_raw (sh : rr_shape) (o ttl ty : list N) (rd : list (list N)) : list (list N) :=
+  match sh with
+  | ShOwnerTtlClass => o :: ttl :: S_IN :: ty :: rd
+  | ShOwnerClassTtl => o :: S_IN :: ttl :: ty :: rd
+  | ShOwnerTtl => o :: ttl :: ty :: rd
+  | ShOwnerClass => o :: S_IN :: ty :: rd
+  | ShOwner => o :: ty :: rd
+  | ShTtlClass => ttl :: S_IN :: ty :: rd
+  | ShClassTtl => S_IN :: ttl :: ty :: rd
+  | ShTtl => ttl :: ty :: rd
+  | ShClass => S_IN :: ty :: rd
+  | ShBare => ty :: rd
+  end.
+
+Lemma shape_raw_tokens sh o ttl ty rd :
+  map dup (shape_raw sh o ttl ty rd) = shape_tokens sh (dup o) (dup ttl) (dup ty) (map dup rd).
+Proof. destruct sh; reflexivity. Qed.
+
+Definition owner_text (x : frr) : list N := match f_owner x with Some o => oref_text o | None => S_AT end.
+Definition ttl_text (x : frr) : list N := match f_ttl x with Some t => show_dec t | None => [48] end.
+
+(* the specification's state while reading a file *)
+Record sp := { p_origin : option dname; p_owner : option owner; p_ttl : option N;
+               p_soa : option (dname * soa); p_norm : list rr; p_wild : list rr }.
+
+Definition sp_init : sp := {| p_origin := None; p_owner := None; p_ttl := None; p_soa := None; p_norm := []; p_wild := [] |}.
+
+Definition mk_rr (n : dname) (ty : N) (ttl : N) (d : rdata) : rr :=
+  {| rr_name := n; rr_type := ty; rr_class := RC_IN; rr_ttl := ttl; rr_data := d |}.
+
+(* RFC 1035 5.1 / the property text, entry by entry *)
+Definition denote_entry (s : sp) (e : fentry) : option sp :=
+  match e with
+  | FOrigin r =>
+    match resolve (p_origin s) r with
+    | Some n => Some {| p_origin := Some n; p_owner := p_owner s; p_ttl := p_ttl s; p_soa := p_soa s;
+                        p_norm := p_norm s; p_wild := p_wild s |}
+    | None => None
+    end
+  | FRR x =>
+    match (match f_owner x with Some o => resolve_owner (p_origin s) o | None => p_owner s end),
+          rda_resolve (p_origin s) (f_rd x) with
+    | Some ow, Some d =>
+      match d with
+      | RD_SOA mname rname serial refresh retry expire minimum =>
+        (* the SOA makes the zone authoritative at its owner; its TTL is its MINIMUM (D3) *)
+        if fst ow then None
+        else match p_soa s with
+             | Some _ => None
+             | None => Some {| p_origin := p_origin s; p_owner := Some ow; p_ttl := Some minimum;
+                               p_soa := Some (snd ow, {| soa_mname := mname; soa_rname := rname; soa_serial := serial;
+                                                         soa_refresh := refresh; soa_retry := retry; soa_expire := expire;
+                                                         soa_minimum := minimum |});
+                               p_norm := p_norm s; p_wild := p_wild s |}
+             end
+      | _ =>
+        match (match f_ttl x with Some t => Some t | None => p_ttl s end) with
+        | Some ttl =>
+          let r := mk_rr (snd ow) (f_type x) ttl d in
+          Some {| p_origin := p_origin s; p_owner := Some ow; p_ttl := Some ttl; p_soa := p_soa s;
+                  p_norm := if fst ow then p_norm s else r :: p_norm s;
+                  p_wild := if fst ow then r :: p_wild s else p_wild s |}
+        | None => None
+        end
+      end
+    | _, _ => None
+    end
+  end.
+
+(* what must hold of an entry beyond having a denotation: the names are expressible, the numbers
+   in range, the type one of the 18 and the RDATA of its shape *)
+Definition rda_shape (x : rda) : shape :=
+  match x with
+  | A_A _ => ShA | A_Name _ => ShName | A_SOA _ _ _ _ _ _ _ => ShSOA | A_Octets _ => ShOctets
+  | A_MINFO _ _ => ShMINFO | A_MX _ _ => ShMX | A_AAAA _ => ShAAAA | A_SRV _ _ _ _ => ShSRV
+  end.
+
+Definition entry_ok (s : sp) (e : fentry) : Prop :=
+  match e with
+  | FOrigin r => nref_ok (p_origin s) r
+  | FRR x =>
+    match f_owner x with Some o => oref_ok (p_origin s) o | None => True end /\
+    match f_ttl x with Some t => t < 4294967296 | None => True end /\
+    rtype_known (f_type x) = true /\ rda_shape (f_rd x) = shape_of_type (f_type x) /\ rda_ok (p_origin s) (f_rd x)
+  end.
+
+Lemma rda_resolve_shape o x d : rda_resolve o x = Some d -> shape_of_rdata d = rda_shape x.
+Proof.
+  destruct x; cbn [rda_resolve rda_shape]; intro H;
+    repeat match type of H with context [resolve o ?r] => destruct (resolve o r); cbn [option_map] in H; try discriminate H end;
+    inversion H; reflexivity.
+Qed.
+
+Section Entries.
+  Variable ip : ipcodec.
+  Hypothesis Hip : codec_rt ip.
+
+  Definition entry_toks (e : option fentry) : list (list N) :=
+    match e with
+    | None => []
+    | Some (FOrigin r) => [S_ORIGIN; nref_text r]
+    | Some (FRR x) => shape_raw (frr_shape x) (owner_text x) (ttl_text x) (show_rtype (f_type x)) (rda_toks ip (f_rd x))
+    end.
+
+  (* ---- no later position reads as type + RDATA ---- *)
+
+  Lemma try_parse_single o t : try_parse_rtype_with_data ip o [t] = Ok None.
+  Proof.
+    unfold try_parse_rtype_with_data. cbn [is_nil idx nth_error bind len_is].
+    destruct (rtype_from_str (fst t)); [|reflexivity].
+    repeat match goal with |- context [if ?b then _ else _] => destruct b end; reflexivity.
+  Qed.
+
+  Lemma try_parse_not_type o t rest : rtype_from_str (fst t) = None -> try_parse_rtype_with_data ip o (t :: rest) = Ok None.
+  Proof. intro H. unfold try_parse_rtype_with_data. cbn [is_nil idx nth_error bind]. rewrite H. reflexivity. Qed.
+
+  (* all tokens but the last are no type mnemonics *)
+  Fixpoint inner_plain (rd : list (list N)) : Prop :=
+    match rd with
+    | [] => True
+    | [_] => True
+    | t :: rest => rtype_from_str t = None /\ inner_plain rest
+    end.
+
+  Lemma inner_plain_suffix o : forall rd j, inner_plain rd -> try_parse_rtype_with_data ip o (skipn j (map dup rd)) = Ok None.
+  Proof.
+    induction rd as [|t rest IH]; intros j H; [destruct j; reflexivity|].
+    destruct j as [|j]; cbn [skipn map].
+    - destruct rest as [|t2 rest2]; [apply try_parse_single|]. apply try_parse_not_type. apply H.
+    - apply IH. destruct rest as [|t2 rest2]; [exact I|]. apply H.
+  Qed.
+
+  Lemma rda_inner_plain o x : origin_ok o -> rda_ok o x -> inner_plain (rda_toks ip x).
+  Proof.
+    intros Ho Hx.
+    assert (Hn : forall r, nref_ok o r -> rtype_from_str (nref_text r) = None).
+    { intros r Hr. apply noupper_not_type, lc_noupper, (nref_text_lc o r Ho Hr). }
+    assert (Hd : forall n, rtype_from_str (show_dec n) = None).
+    { intro n. apply digits_not_type; [apply show_dec_ne|apply show_dec_isd]. }
+    destruct x; cbn [rda_ok rda_toks inner_plain] in *; repeat match goal with H : _ /\ _ |- _ => destruct H end; auto 10.
+  Qed.
+
+  Lemma try_from_ge o (tokens : list token) q : (length tokens <= q)%nat -> try_from ip o tokens q = Ok None.
+  Proof.
+    intro H. unfold try_from. destruct (len_ge (S q) tokens) eqn:E; [|reflexivity]. apply len_ge_spec in E. lia.
+  Qed.
+
+  Lemma try_from_skip o (tokens : list token) q :
+    try_parse_rtype_with_data ip o (skipn q tokens) = Ok None -> try_from ip o tokens q = Ok None.
+  Proof.
+    intros H. unfold try_from, slice_from. destruct (len_ge (S q) tokens) eqn:E; [|reflexivity].
+    rewrite (len_ge_S _ _ E). cbn [bind]. exact H.
+  Qed.
+
+  Lemma shape_unambiguous o sh ot tt ty rd : inner_plain rd ->
+    forall q, (type_pos sh < q <= 3)%nat ->
+      try_from ip o (shape_tokens sh (dup ot) (dup tt) (dup ty) (map dup rd)) q = Ok None.
+  Proof.
+    intros Hrd q Hq. apply try_from_skip.
+    destruct sh; cbn [type_pos shape_tokens] in *;
+      (destruct q as [|[|[|[|q]]]]; try lia); cbn [skipn];
+      first [ apply (inner_plain_suffix o rd 0 Hrd) | apply (inner_plain_suffix o rd 1 Hrd)
+            | apply (inner_plain_suffix o rd 2 Hrd) ].
+  Qed.
+End Entries.
+
+(* ====================================================================== *)
+(* one entry: the parser's state follows the specification's               *)
+(* ====================================================================== *)
+
+Definition rel (st : dstate) (s : sp) : Prop :=
+  d_origin st = p_origin s /\ d_prev_domain st = option_map to_mw (p_owner s) /\ d_prev_ttl st = p_ttl s /\
+  d_apex_soa st = p_soa s /\ d_rrs st = p_norm s /\ d_wrrs st = p_wild s.
+
+Lemma rel_init : rel dstate_init sp_init.
+Proof. unfold rel. cbn. auto 10. Qed.
+
+Definition sp_ok (s : sp) : Prop := origin_ok (p_origin s).
+
+Lemma has_owner_shape x : has_owner (frr_shape x) = match f_owner x with Some _ => true | None => false end.
+Proof. unfold frr_shape. destruct (f_owner x), (f_ttl x), (f_class x), (f_ttl_first x); reflexivity. Qed.
+Lemma has_ttl_shape x : has_ttl (frr_shape x) = match f_ttl x with Some _ => true | None => false end.
+Proof. unfold frr_shape. destruct (f_owner x), (f_ttl x), (f_class x), (f_ttl_first x); reflexivity. Qed.
+
+Section Steps.
+  Variable ip : ipcodec.
+  Hypothesis Hip : codec_rt ip.
+
+  Lemma origin_step st s r s' :
+    rel st s -> sp_ok s -> entry_ok s (FOrigin r) -> denote_entry s (FOrigin r) = Some s' ->
+    exists e' st', parse_origin (d_origin st) (map dup (entry_toks ip (Some (FOrigin r)))) = Ok e' /\
+                   deser_step st e' = Ok st' /\ rel st' s' /\ sp_ok s'.
+  Proof.
+    intros (R1 & R2 & R3 & R4 & R5 & R6) Hs He Hd. cbn [denote_entry entry_ok entry_toks map] in *.
+    destruct (resolve (p_origin s) r) as [n|] eqn:En; [|discriminate]. inversion Hd; subst; clear Hd.
+    exists (EOrigin n). eexists. split; [|split; [reflexivity|]].
+    - unfold parse_origin. cbn [len_is negb idx nth_error bind fst dup].
+      change (leqb S_ORIGIN S_ORIGIN) with true. cbn [negb]. rewrite R1, (nref_parse _ _ _ Hs He En). reflexivity.
+    - split; [unfold rel; cbn; auto 10|]. unfold sp_ok. cbn [p_origin]. eapply resolve_ok; eassumption.
+  Qed.
+
+  Definition the_ttl (x : frr) (s : sp) : N :=
+    match f_ttl x with Some t => t | None => match p_ttl s with Some t => t | None => 0 end end.
+
+  (* what parse_rr makes of a record entry *)
+  Lemma rr_parse st s x ow d :
+    rel st s -> sp_ok s -> entry_ok s (FRR x) ->
+    match f_owner x with Some o => resolve_owner (p_origin s) o | None => p_owner s end = Some ow ->
+    rda_resolve (p_origin s) (f_rd x) = Some d ->
+    parse_rr ip (d_origin st) (d_prev_domain st) (d_prev_ttl st) (map dup (entry_toks ip (Some (FRR x))))
+    = match f_ttl x with
+      | Some t => Ok (to_rr (to_mw ow) (f_type x, d) t)
+      | None => with_prev_ttl (p_ttl s) (to_mw ow) (f_type x, d)
+      end.
+  Proof.
+    intros (R1 & R2 & R3 & R4 & R5 & R6) Hs (Hox & Htt & Hk & Hsh & Hrd) How Hd.
+    cbn [entry_toks]. rewrite shape_raw_tokens, R1.
+    assert (Htd : try_parse_rtype_with_data ip (p_origin s) (dup (show_rtype (f_type x)) :: map dup (rda_toks ip (f_rd x)))
+                  = Ok (Some (f_type x, d))).
+    { apply (rda_parse ip Hip _ _ _ _ Hs Hk Hrd Hd). rewrite (rda_resolve_shape _ _ _ Hd). exact Hsh. }
+    assert (Hown : all_digits (owner_text x) = false /\ leqb (owner_text x) S_IN = false).
+    { unfold owner_text. destruct (f_owner x) as [o|]; [|split; reflexivity].
+      destruct (oref_text_facts _ _ Hs Hox) as (_ & _ & Hnu & Hd0). split; [exact Hd0|apply (noupper_keywords _ Hnu)]. }
+    assert (Httl : all_digits (ttl_text x) = true /\ uint_from_str U32_MAX (ttl_text x) = Some (match f_ttl x with Some t => t | None => 0 end)).
+    { unfold ttl_text. destruct (f_ttl x) as [t|]; [|split; reflexivity].
+      split; [apply show_dec_all_digits|apply show_dec_parse; [exact Htt|unfold U32_MAX; lia]]. }
+    rewrite (parse_rr_forms ip (frr_shape x) (p_origin s) (d_prev_domain st) (d_prev_ttl st)
+                            (dup (owner_text x)) (dup (ttl_text x)) (dup (show_rtype (f_type x))) (map dup (rda_toks ip (f_rd x)))
+                            _ (f_type x, d) Htd
+                            (shape_unambiguous ip _ _ _ _ _ _ (rda_inner_plain ip _ _ Hs Hrd))
+                            (proj1 Hown) (proj2 Hown) (proj1 Httl) (proj2 Httl)).
+    unfold denote_rr. rewrite has_owner_shape, has_ttl_shape, R2, R3. cbn [fst dup].
+    unfold owner_text. destruct (f_owner x) as [o|].
+    - rewrite (oref_parse _ _ _ Hs Hox How). cbn [bind]. destruct (f_ttl x); reflexivity.
+    - rewrite How. cbn [option_map]. destruct (f_ttl x); reflexivity.
+  Qed.
+
+  Lemma shape_soa_iff ty : rtype_known ty = true -> (shape_of_type ty = ShSOA <-> ty = RT_SOA).
+  Proof. intros _. split; [apply shape_soa|intros ->; reflexivity]. Qed.
+
+  Lemma to_rr_plain w n ty d ttl : not_soa_data d ->
+    to_rr (to_mw (w, n)) (ty, d) ttl = if w then EWildcardRR (mk_rr n ty ttl d) else ERR (mk_rr n ty ttl d).
+  Proof.
+    intro H. unfold to_rr, to_mw, mk_rr. cbn [fst snd].
+    assert (E : match d with RD_SOA _ _ _ _ _ _ minimum => minimum | _ => ttl end = ttl)
+      by (destruct d; try reflexivity; exfalso; eapply H; reflexivity).
+    rewrite E. destruct w; reflexivity.
+  Qed.
+
+  Lemma step_plain st s (w : bool) n ty d ttl :
+    rel st s -> not_soa_data d -> ty <> RT_SOA ->
+    exists st', deser_step st (if w then EWildcardRR (mk_rr n ty ttl d) else ERR (mk_rr n ty ttl d)) = Ok st' /\
+      rel st' {| p_origin := p_origin s; p_owner := Some (w, n); p_ttl := Some ttl; p_soa := p_soa s;
+                 p_norm := if w then p_norm s else mk_rr n ty ttl d :: p_norm s;
+                 p_wild := if w then mk_rr n ty ttl d :: p_wild s else p_wild s |}.
+  Proof.
+    intros (R1 & R2 & R3 & R4 & R5 & R6) Hd Hty. destruct w.
+    - cbn [deser_step mk_rr rr_type]. rewrite (proj2 (N.eqb_neq _ _) Hty). eexists. split; [reflexivity|].
+      unfold rel. cbn. rewrite R1, R4, R5, R6. auto 10.
+    - cbn [deser_step mk_rr rr_data rr_name rr_ttl].
+      destruct d; try (eexists; split; [reflexivity|]; unfold rel; cbn; rewrite R1, R4, R5, R6; auto 10).
+      exfalso. eapply Hd. reflexivity.
+  Qed.
+
+  Lemma rr_step st s x s' :
+    rel st s -> sp_ok s -> entry_ok s (FRR x) -> denote_entry s (FRR x) = Some s' ->
+    exists e' st', parse_rr ip (d_origin st) (d_prev_domain st) (d_prev_ttl st) (map dup (entry_toks ip (Some (FRR x)))) = Ok e' /\
+                   deser_step st e' = Ok st' /\ rel st' s' /\ sp_ok s'.
+  Proof.
+    intros HR Hs He Hd. pose proof HR as (R1 & R2 & R3 & R4 & R5 & R6). pose proof He as (Hox & Htt & Hk & Hsh & Hrd).
+    cbn [denote_entry] in Hd.
+    destruct (match f_owner x with Some o => resolve_owner (p_origin s) o | None => p_owner s end) as [ow|] eqn:How; [|discriminate].
+    destruct (rda_resolve (p_origin s) (f_rd x)) as [d|] eqn:Ed; [|discriminate].
+    pose proof (rr_parse st s x ow d HR Hs He How Ed) as Hp.
+    pose proof (rda_resolve_shape _ _ _ Ed) as Hshape. rewrite Hsh in Hshape.
+    destruct ow as [w n].
+    (* every case but the SOA *)
+    assert (Hplain : not_soa_data d ->
+              match (match f_ttl x with Some t => Some t | None => p_ttl s end) with
+              | Some ttl => Some {| p_origin := p_origin s; p_owner := Some (w, n); p_ttl := Some ttl; p_soa := p_soa s;
+                                    p_norm := if w then p_norm s else mk_rr n (f_type x) ttl d :: p_norm s;
+                                    p_wild := if w then mk_rr n (f_type x) ttl d :: p_wild s else p_wild s |}
+              | None => None
+              end = Some s' ->
+              exists e' st', parse_rr ip (d_origin st) (d_prev_domain st) (d_prev_ttl st) (map dup (entry_toks ip (Some (FRR x)))) = Ok e' /\
+                             deser_step st e' = Ok st' /\ rel st' s' /\ sp_ok s').
+    { intros Hnd Hd'.
+      assert (Hns : f_type x <> RT_SOA).
+      { intro F. rewrite F in Hshape. destruct d; cbv in Hshape; try discriminate Hshape. eapply Hnd. reflexivity. }
+      destruct (match f_ttl x with Some t => Some t | None => p_ttl s end) as [ttl|] eqn:Ettl; [|discriminate].
+      inversion Hd'; subst; clear Hd'.
+      assert (Hpe : parse_rr ip (d_origin st) (d_prev_domain st) (d_prev_ttl st) (map dup (entry_toks ip (Some (FRR x))))
+                    = Ok (to_rr (to_mw (w, n)) (f_type x, d) ttl)).
+      { rewrite Hp. destruct (f_ttl x) as [t|]; [inversion Ettl; reflexivity|]. unfold with_prev_ttl. rewrite Ettl. reflexivity. }
+      rewrite (to_rr_plain w n (f_type x) d ttl Hnd) in Hpe.
+      destruct (step_plain st s w n (f_type x) d ttl HR Hnd Hns) as (st' & Hst & Hrel).
+      eexists. exists st'. split; [exact Hpe|]. split; [exact Hst|]. split; [exact Hrel|exact Hs]. }
+    destruct d as [a|nn|m r a b c e f|os|rm em|p ex|g|p wg po tg];
+      try (apply Hplain; [intros ? ? ? ? ? ? ? F; discriminate F|exact Hd]).
+    (* the SOA *)
+    assert (Hty : f_type x = RT_SOA).
+    { cbn [shape_of_rdata] in Hshape. symmetry in Hshape. apply shape_soa in Hshape. exact Hshape. }
+    destruct w; cbn [fst snd] in Hd; [discriminate|].
+    destruct (p_soa s) eqn:Eso; [discriminate|]. inversion Hd; subst; clear Hd.
+    assert (Hpe : parse_rr ip (d_origin st) (d_prev_domain st) (d_prev_ttl st) (map dup (entry_toks ip (Some (FRR x))))
+                  = Ok (ERR (mk_rr n (f_type x) f (RD_SOA m r a b c e f)))).
+    { rewrite Hp, Hty.
+      destruct (f_ttl x) as [t|]; [reflexivity|]. unfold with_prev_ttl. destruct (p_ttl s); [reflexivity|].
+      cbn [fst]. change (RT_SOA =? RT_SOA) with true. reflexivity. }
+    eexists; eexists; split; [exact Hpe|]. cbn [deser_step mk_rr rr_data rr_name]. rewrite R4.
+    split; [reflexivity|]. split; [|exact Hs]. unfold rel. cbn. rewrite R1, R5, R6. auto 10.
+  Qed.
+End Steps.
+
+(* ====================================================================== *)
+(* files                                                                   *)
+(* ====================================================================== *)
+
+(* one line: an entry or none, laid out anyhow, and how the line ends *)
+Record fline := { l_entry : option fentry; l_items : list item; l_term : terminator }.
+
+Definition nl_term (t : terminator) : bool := match t with TNl | TCommentNl _ => true | _ => false end.
+
+Fixpoint render (ls : list fline) : list N :=
+  match ls with
+  | [] => []
+  | l :: t => items_text (l_items l) ++ terminator_text (l_term l) (render t)
+  end.
+
+Fixpoint denote_lines (s : sp) (ls : list fline) : option sp :=
+  match ls with
+  | [] => Some s
+  | l :: t => match l_entry l with
+              | None => denote_lines s t
+              | Some e => match denote_entry s e with Some s' => denote_lines s' t | None => None end
+              end
+  end.
+
+Definition sp_apex (s : sp) : dname := match p_soa s with Some (a, _) => a | None => root_domain end.
+Definition sp_soa (s : sp) : option soa := match p_soa s with Some (_, so) => Some so | None => None end.
+Definition sp_ops (s : sp) : list zop := map (op_of_rr false) (rev (p_norm s)) ++ map (op_of_rr true) (rev (p_wild s)).
+
+(* the zone a file denotes: apex and SOA as found (the root and none otherwise), and the records
+   as a list of insertions -- its content is flat_of_ops of Zone/ZoneFlat.v, which raises every TTL
+   to the SOA minimum; no zone if a record lies outside the apex *)
+Definition denote (ls : list fline) : option (dname * option soa * list zop) :=
+  match denote_lines sp_init ls with
+  | Some s => if forallb (fun r => is_subdomain_of (rr_name r) (sp_apex s)) (p_norm s ++ p_wild s)
+              then Some (sp_apex s, sp_soa s, sp_ops s) else None
+  | None => None
+  end.
+
+Section Files.
+  Variable ip : ipcodec.
+  Hypothesis Hip : codec_rt ip.
+
+  (* the layout of a line is in the layout family and carries exactly the entry's tokens *)
+  Definition line_ok (l : fline) : Prop :=
+    layout_ok false false (l_items l) = Some false /\ terminator_ok (l_term l) = true /\
+    map wtoken_octets (items_tokens (l_items l)) = entry_toks ip (l_entry l).
+
+  Fixpoint lines_ok (s : sp) (ls : list fline) : Prop :=
+    match ls with
+    | [] => True
+    | l :: t => line_ok l /\ (t <> [] -> nl_term (l_term l) = true) /\
+                match l_entry l with
+                | None => lines_ok s t
+                | Some e => entry_ok s e /\ match denote_entry s e with Some s' => lines_ok s' t | None => True end
+                end
+    end.
+
+  (* ---- names stay expressible ---- *)
+  Definition sp_names (s : sp) : Prop :=
+    match p_owner s with Some ow => name_ok (snd ow) | None => True end /\
+    Forall (fun r => name_ok (rr_name r)) (p_norm s) /\ Forall (fun r => name_ok (rr_name r)) (p_wild s) /\
+    match p_soa s with Some (a, _) => name_ok a | None => True end.
+
+  Lemma resolve_owner_ok o x ow : origin_ok o -> oref_ok o x -> resolve_owner o x = Some ow -> name_ok (snd ow).
+  Proof.
+    intros Ho Hx H. destruct x as [r| |r]; cbn [oref_ok resolve_owner] in *.
+    - destruct Hx as (Hr & _). destruct (resolve o r) as [n|] eqn:En; [|discriminate]. inversion H; subst.
+      apply star_rule_ok. eapply resolve_ok; eassumption.
+    - destruct o as [og|]; [|discriminate]. inversion H; subst. exact Ho.
+    - destruct (resolve o r) as [n|] eqn:En; [|discriminate]. inversion H; subst. eapply resolve_ok; eassumption.
+  Qed.
+
+  Lemma denote_entry_names s e s' : sp_ok s -> sp_names s -> entry_ok s e -> denote_entry s e = Some s' -> sp_names s'.
+  Proof.
+    intros Hs (N1 & N2 & N3 & N4) He Hd. destruct e as [r|x]; cbn [denote_entry entry_ok] in *.
+    - destruct (resolve (p_origin s) r); [|discriminate]. inversion Hd; subst. unfold sp_names. cbn. auto.
+    - destruct He as (Hox & _).
+      destruct (match f_owner x with Some o => resolve_owner (p_origin s) o | None => p_owner s end) as [ow|] eqn:How; [|discriminate].
+      assert (Hown : name_ok (snd ow)).
+      { destruct (f_owner x) as [o|]; [eapply resolve_owner_ok; eassumption|]. rewrite How in N1. exact N1. }
+      destruct (rda_resolve (p_origin s) (f_rd x)) as [d|]; [|discriminate].
+      assert (Hpush : forall ttl d',
+                 sp_names {| p_origin := p_origin s; p_owner := Some ow; p_ttl := Some ttl; p_soa := p_soa s;
+                             p_norm := if fst ow then p_norm s else mk_rr (snd ow) (f_type x) ttl d' :: p_norm s;
+                             p_wild := if fst ow then mk_rr (snd ow) (f_type x) ttl d' :: p_wild s else p_wild s |}).
+      { intros ttl d'. unfold sp_names. cbn [p_owner p_norm p_wild p_soa]. split; [exact Hown|]. destruct (fst ow).
+        - split; [exact N2|]. split; [constructor; [exact Hown|exact N3]|exact N4].
+        - split; [constructor; [exact Hown|exact N2]|]. split; [exact N3|exact N4]. }
+      destruct d;
+        try (destruct (match f_ttl x with Some t => Some t | None => p_ttl s end); [|discriminate];
+             inversion Hd; subst; apply Hpush).
+      destruct (fst ow); [discriminate|]. destruct (p_soa s); [discriminate|]. inversion Hd; subst.
+      unfold sp_names. cbn [p_owner p_norm p_wild p_soa]. auto.
+  Qed.
+
+  (* ---- one line ---- *)
+
+  Lemma parse_entry_skip o pd pt s rest : tokenise_entry s = Ok ([], rest) ->
+    parse_entry ip o pd pt s = parse_entry ip o pd pt rest.
+  Proof.
+    intro Ht. unfold parse_entry. destruct rest as [|c r].
+    - cbn [parse_entry_loop]. rewrite Ht. reflexivity.
+    - transitivity (parse_entry_loop ip s o pd pt (c :: r)).
+      + cbn [parse_entry_loop]. rewrite Ht. reflexivity.
+      + apply tokenise_entry_rest in Ht as [[_ F]|Hlt]; [discriminate|].
+        apply parse_entry_loop_fuel; cbn [length] in *; lia.
+  Qed.
+
+  Lemma line_tokens l rest : line_ok l -> (rest <> [] -> nl_term (l_term l) = true) ->
+    tokenise_entry (items_text (l_items l) ++ terminator_text (l_term l) rest)
+    = Ok (map dup (entry_toks ip (l_entry l)), rest).
+  Proof.
+    intros (Hl & Ht & Htok) Hnl. rewrite (tokenise_render _ _ _ Hl Ht), Htok. f_equal. f_equal.
+    destruct (l_term l); cbn [terminator_rest nl_term] in *; try reflexivity;
+      (destruct rest; [reflexivity|]; exfalso; specialize (Hnl ltac:(discriminate)); discriminate).
+  Qed.
+
+  Lemma first_not_keyword s x : sp_ok s -> entry_ok s (FRR x) ->
+    match entry_toks ip (Some (FRR x)) with
+    | t0 :: _ => leqb t0 S_ORIGIN = false /\ leqb t0 S_INCLUDE = false
+    | [] => False
+    end.
+  Proof.
+    intros Hs (Hox & Htt & Hk & _).
+    assert (Ko : f_owner x <> None -> leqb (owner_text x) S_ORIGIN = false /\ leqb (owner_text x) S_INCLUDE = false).
+    { unfold owner_text. destruct (f_owner x) as [o|]; [|contradiction]. intros _.
+      destruct (oref_text_facts _ _ Hs Hox) as (_ & _ & Hnu & _). destruct (noupper_keywords _ Hnu) as (A & B & _). auto. }
+    assert (Kt : leqb (ttl_text x) S_ORIGIN = false /\ leqb (ttl_text x) S_INCLUDE = false).
+    { assert (Hd : all_digits (ttl_text x) = true) by (unfold ttl_text; destruct (f_ttl x); [apply show_dec_all_digits|reflexivity]).
+      split; apply leqb_false; intro E; rewrite E in Hd; discriminate. }
+    assert (Ky : leqb (show_rtype (f_type x)) S_ORIGIN = false /\ leqb (show_rtype (f_type x)) S_INCLUDE = false).
+    { apply known_cases in Hk. unfold known_types in Hk.
+      repeat (destruct Hk as [<-|Hk]; [split; reflexivity|]). destruct Hk. }
+    cbn [entry_toks]. unfold frr_shape.
+    destruct (f_owner x) as [o|] eqn:Eo; destruct (f_ttl x), (f_class x), (f_ttl_first x); cbn [shape_raw];
+      first [apply Ko; discriminate | exact Kt | exact Ky | split; reflexivity].
+  Qed.
+
+  (* ---- the whole file: the loop ---- *)
+
+  Lemma lines_run : forall ls st s s_fin fuel,
+    rel st s -> sp_ok s -> sp_names s -> lines_ok s ls -> denote_lines s ls = Some s_fin ->
+    (length (render ls) < length fuel)%nat ->
+    exists st_fin, deser_loop ip fuel st (render ls) = Ok st_fin /\ rel st_fin s_fin /\ sp_names s_fin.
+  Proof.
+    induction ls as [|l t IH]; intros st s s_fin fuel HR Hs Hn Hok Hd Hlen.
+    - cbn [denote_lines render] in *. inversion Hd; subst. destruct fuel as [|f fuel]; [cbn [length] in Hlen; lia|].
+      exists st. split; [reflexivity|auto].
+    - cbn [lines_ok denote_lines render] in *. destruct Hok as (Hline & Hnl & Hrest).
+      assert (Hnl' : render t <> [] -> nl_term (l_term l) = true).
+      { intro H. apply Hnl. intro E. subst t. apply H. reflexivity. }
+      pose proof (line_tokens l (render t) Hline Hnl') as Htok.
+      destruct fuel as [|f fuel]; [cbn [length] in Hlen; lia|].
+      pose proof HR as (R1 & R2 & R3 & R4 & R5 & R6).
+      destruct (l_entry l) as [e|] eqn:Ee.
+      + (* an entry *)
+        destruct Hrest as [He Hrest]. destruct (denote_entry s e) as [s'|] eqn:Ede; [|discriminate].
+        assert (Hstep : exists e' st', parse_entry ip (d_origin st) (d_prev_domain st) (d_prev_ttl st)
+                                          (items_text (l_items l) ++ terminator_text (l_term l) (render t)) = Ok (Some e', render t) /\
+                                       deser_step st e' = Ok st' /\ rel st' s' /\ sp_ok s').
+        { destruct e as [r|x].
+          - destruct (origin_step ip st s r s' HR Hs He Ede) as (e' & st' & Hp & Hst & Hrel & Hs').
+            exists e', st'. split; [|auto]. unfold parse_entry. cbn [parse_entry_loop]. rewrite Htok.
+            cbn [entry_toks map bind fst snd is_nil idx nth_error dup]. change (leqb S_ORIGIN S_ORIGIN) with true. cbn iota.
+            cbn [entry_toks map] in Hp. rewrite Hp. reflexivity.
+          - destruct (rr_step ip Hip st s x s' HR Hs He Ede) as (e' & st' & Hp & Hst & Hrel & Hs').
+            exists e', st'. split; [|auto]. unfold parse_entry. cbn [parse_entry_loop]. rewrite Htok.
+            pose proof (first_not_keyword s x Hs He) as Hk.
+            destruct (entry_toks ip (Some (FRR x))) as [|t0 toks] eqn:Et; [destruct Hk|]. destruct Hk as [K1 K2].
+            cbn [map bind fst snd is_nil idx nth_error dup]. rewrite K1, K2. cbn [map] in Hp. rewrite Hp. reflexivity. }
+        destruct Hstep as (e' & st' & Hp & Hst & Hrel & Hs').
+        rewrite deser_loop_unfold, Hp. cbn [bind fst snd]. rewrite Hst. cbn [bind].
+        apply (IH st' s' s_fin fuel Hrel Hs' (denote_entry_names s e s' Hs Hn He Ede) Hrest Hd).
+        (* the rest is shorter than the text *)
+        assert (Hshort : (length (render t) < length (items_text (l_items l) ++ terminator_text (l_term l) (render t)))%nat).
+        { apply tokenise_entry_rest in Htok as [[E _]|H]; [|exact H]. exfalso.
+          unfold parse_entry in Hp. rewrite E in Hp. cbn in Hp. discriminate. }
+        cbn [length] in Hlen. lia.
+      + (* a blank or comment-only line *)
+        cbn [entry_toks map] in Htok.
+        assert (Hskip : deser_loop ip (f :: fuel) st (items_text (l_items l) ++ terminator_text (l_term l) (render t))
+                        = deser_loop ip (f :: fuel) st (render t)).
+        { rewrite !deser_loop_unfold, (parse_entry_skip _ _ _ _ _ Htok). reflexivity. }
+        rewrite Hskip. apply (IH st s s_fin (f :: fuel) HR Hs Hn Hrest Hd).
+        apply tokenise_entry_rest in Htok as [[E1 E2]|H]; [rewrite E2; cbn [length]; lia|lia].
+  Qed.
+
+  (* C11.3 parse_denotes: a file of the abstract syntax, laid out anyhow in the layout family, is
+     read as the zone it denotes: same apex, same SOA, and the record tree represents (relation R)
+     the flat zone made of the denoted records *)
+  Theorem parse_denotes ls apex so ops :
+    lines_ok sp_init ls -> denote ls = Some (apex, so, ops) ->
+    exists z, deserialise ip (render ls) = Ok z /\ z_apex z = apex /\ z_soa z = so /\
+              zone_build apex so ops = Ok z /\ R (labels apex) (z_records z) (flat_of_ops apex so ops).
+  Proof.
+    intros Hok Hd. unfold denote in Hd.
+    destruct (denote_lines sp_init ls) as [s|] eqn:El; [|discriminate].
+    destruct (forallb (fun r => is_subdomain_of (rr_name r) (sp_apex s)) (p_norm s ++ p_wild s)) eqn:Eu; [|discriminate].
+    inversion Hd; subst; clear Hd.
+    assert (Hn0 : sp_names sp_init) by (unfold sp_names, sp_init; cbn; auto).
+    destruct (lines_run ls dstate_init sp_init s (0 :: render ls) rel_init I Hn0 Hok El ltac:(cbn [length]; lia))
+      as (st & Hloop & (R1 & R2 & R3 & R4 & R5 & R6) & (N1 & N2 & N3 & N4)).
+    rewrite forallb_forall in Eu.
+    destruct (assemble_build st (sp_apex s) (sp_soa s) (rev (p_norm s)) (rev (p_wild s))) as (z & Hz & Ha & Hs & Hb & HR).
+    - rewrite R4. unfold sp_apex, sp_soa. destruct (p_soa s) as [[a so]|]; reflexivity.
+    - unfold sp_apex, sp_soa. destruct (p_soa s) as [[a so]|]; [discriminate|reflexivity].
+    - rewrite rev_involutive. exact R5.
+    - rewrite rev_involutive. exact R6.
+    - unfold sp_apex. destruct (p_soa s) as [[a so]|]; [apply N4|apply root_wf].
+    - intros r Hr. split.
+      + apply in_app_or in Hr as [Hr|Hr]; apply in_rev in Hr; [rewrite Forall_forall in N2; apply (N2 r Hr)|rewrite Forall_forall in N3; apply (N3 r Hr)].
+      + apply Eu. apply in_app_or in Hr as [Hr|Hr]; apply in_rev in Hr; apply in_or_app; auto.
+    - exists z. unfold deserialise. rewrite Hloop. cbn [bind]. auto.
+  Qed.
+End Files.
+
+(* ====================================================================== *)
+(* validity is decidable: an executable checker, sound for [lines_ok]       *)
+(* ====================================================================== *)
+
+Definition label_okb (l : label) : bool :=
+  negb (is_nil l) && (llen l <=? 63) && forallb (fun b => (b <? 128) && negb (b =? 46) && negb (is_upper b)) l.
+
+Definition name_okb (n : dname) : bool :=
+  match rev (labels n) with
+  | [] :: rfront => forallb label_okb rfront && (sum_lens (labels n) <=? 255) && (nlen n =? sum_lens (labels n))
+  | _ => false
+  end.
+
+Lemma label_okb_sound l : label_okb l = true -> (l <> [] /\ wf_label l) /\ ascii_label l.
+Proof.
+  unfold label_okb. intro H. apply andb_true_iff in H as [H H3]. apply andb_true_iff in H as [H1 H2].
+  apply N.leb_le in H2. rewrite forallb_forall in H3.
+  assert (Hb : forall b, In b l -> b < 128 /\ b <> 46 /\ is_upper b = false).
+  { intros b Hb. specialize (H3 b Hb). apply andb_true_iff in H3 as [H3 Hu]. apply andb_true_iff in H3 as [Ha Hd].
+    apply N.ltb_lt in Ha. apply negb_true_iff in Hd. apply N.eqb_neq in Hd. apply negb_true_iff in Hu. auto. }
+  split; [split|].
+  - destruct l; [discriminate|discriminate].
+  - split; [exact H2|]. apply Forall_forall. intros b Hin. destruct (Hb b Hin) as (A & _ & C). split; [lia|exact C].
+  - unfold ascii_label. apply Forall_forall. intros b Hin. destruct (Hb b Hin) as (A & B & _). auto.
+Qed.
+
+Lemma name_okb_sound n : name_okb n = true -> name_ok n.
+Proof.
+  unfold name_okb. destruct (rev (labels n)) as [|l0 rfront] eqn:Er; [discriminate|]. destruct l0; [|discriminate].
+  intro H. apply andb_true_iff in H as [H H3]. apply andb_true_iff in H as [H1 H2].
+  apply N.leb_le in H2. apply N.eqb_eq in H3. rewrite forallb_forall in H1.
+  assert (El : labels n = rev rfront ++ [[]]).
+  { rewrite <- (rev_involutive (labels n)), Er. reflexivity. }
+  assert (Hall : forall l, In l (rev rfront) -> (l <> [] /\ wf_label l) /\ ascii_label l).
+  { intros l Hl. apply label_okb_sound, H1. apply in_rev. exact Hl. }
+  split.
+  - split; [|exact H3]. exists (rev rfront). split; [exact El|]. split; [|exact H2].
+    apply Forall_forall. intros l Hl. apply (Hall l Hl).
+  - unfold ascii_nodot. rewrite El. apply Forall_app. split; [|repeat constructor].
+    apply Forall_forall. intros l Hl. apply (Hall l Hl).
+Qed.
+
+Definition origin_okb (o : option dname) : bool := match o with Some og => name_okb og | None => true end.
+
+Definition nref_okb (o : option dname) (r : nref) : bool :=
+  match r with
+  | NAbs n => name_okb n
+  | NRel pre => negb (is_nil pre) && negb (leqb (join_dots pre) S_AT) &&
+                match o with Some og => name_okb (mkname (pre ++ labels og)) | None => false end
+  | NAt => match o with Some _ => true | None => false end
+  end.
+
+Lemma nref_okb_sound o r : nref_okb o r = true -> nref_ok o r.
+Proof.
+  destruct r as [n|pre|]; cbn [nref_okb nref_ok].
+  - apply name_okb_sound.
+  - intro H. apply andb_true_iff in H as [H H3]. apply andb_true_iff in H as [H1 H2].
+    split; [destruct pre; [discriminate|discriminate]|]. split.
+    + intro E. rewrite E in H2. discriminate.
+    + destruct o; [apply name_okb_sound; exact H3|discriminate].
+  - destruct o; [discriminate|discriminate].
+Qed.
+
+Definition star_prefixed (s : list N) : bool :=
+  match s with c0 :: c1 :: _ => (c0 =? 42) && (c1 =? 46) | _ => false end.
+
+Definition oref_okb (o : option dname) (x : oref) : bool :=
+  match x with
+  | OName r => nref_okb o r && negb (leqb (nref_text r) S_STAR) && negb (star_prefixed (nref_text r)) && negb (all_digits (nref_text r))
+  | OStar => match o with Some _ => true | None => false end
+  | OWild r => nref_okb o r
+  end.
+
+Lemma oref_okb_sound o x : oref_okb o x = true -> oref_ok o x.
+Proof.
+  destruct x as [r| |r]; cbn [oref_okb oref_ok].
+  - intro H. apply andb_true_iff in H as [H H4]. apply andb_true_iff in H as [H H3]. apply andb_true_iff in H as [H1 H2].
+    split; [apply nref_okb_sound; exact H1|]. split; [intro E; rewrite E in H2; discriminate|]. split.
+    + intros t E. rewrite E in H3. cbn in H3. discriminate.
+    + apply negb_true_iff. exact H4.
+  - destruct o; [discriminate|discriminate].
+  - apply nref_okb_sound.
+Qed.
+
+Definition u32b (x : N) : bool := x <? 4294967296.
+Definition u16b (x : N) : bool := x <? 65536.
+
+Definition rda_okb (o : option dname) (x : rda) : bool :=
+  match x with
+  | A_A a => u32b a
+  | A_Name r => nref_okb o r
+  | A_SOA m r a b c d e => nref_okb o m && nref_okb o r && u32b a && u32b b && u32b c && u32b d && u32b e
+  | A_Octets os => forallb (fun b => b <? 256) os
+  | A_MINFO r e => nref_okb o r && nref_okb o e
+  | A_MX p e => u16b p && nref_okb o e
+  | A_AAAA g => Nat.eqb (length g) 8 && forallb u16b g
+  | A_SRV p w po t => u16b p && u16b w && u16b po && nref_okb o t
+  end.
+
+Lemma rda_okb_sound o x : rda_okb o x = true -> rda_ok o x.
+Proof.
+  destruct x; cbn [rda_okb rda_ok]; unfold u32b, u16b; intro H;
+    repeat match goal with H : (_ && _) = true |- _ => apply andb_true_iff in H; destruct H end;
+    repeat match goal with H : (_ <? _) = true |- _ => apply N.ltb_lt in H end;
+    repeat match goal with H : nref_okb _ _ = true |- _ => apply nref_okb_sound in H end;
+    auto 10.
+  - unfold octets. apply Forall_forall. rewrite forallb_forall in H. intros b Hb. apply N.ltb_lt, H, Hb.
+  - split; [apply PeanoNat.Nat.eqb_eq; assumption|]. apply Forall_forall.
+    match goal with H : forallb _ _ = true |- _ => rewrite forallb_forall in H; intros b Hb; apply N.ltb_lt, H, Hb end.
+Qed.
+
+Definition shape_eq_b (a b : shape) : bool := shape_eqb a b.
+
+Lemma shape_eqb_sound a b : shape_eqb a b = true -> a = b.
+Proof. destruct a, b; cbn; intro H; try reflexivity; discriminate. Qed.
+
+Definition entry_okb (s : sp) (e : fentry) : bool :=
+  match e with
+  | FOrigin r => nref_okb (p_origin s) r
+  | FRR x =>
+    match f_owner x with Some o => oref_okb (p_origin s) o | None => true end &&
+    match f_ttl x with Some t => u32b t | None => true end &&
+    rtype_known (f_type x) && shape_eqb (rda_shape (f_rd x)) (shape_of_type (f_type x)) && rda_okb (p_origin s) (f_rd x)
+  end.
+
+Lemma entry_okb_sound s e : entry_okb s e = true -> entry_ok s e.
+Proof.
+  destruct e as [r|x]; cbn [entry_okb entry_ok]; [apply nref_okb_sound|].
+  intro H. repeat match goal with H : (_ && _) = true |- _ => apply andb_true_iff in H; destruct H end.
+  split; [destruct (f_owner x); [apply oref_okb_sound; assumption|exact I]|].
+  split; [destruct (f_ttl x); [unfold u32b in *; apply N.ltb_lt; assumption|exact I]|].
+  split; [assumption|]. split; [apply shape_eqb_sound; assumption|apply rda_okb_sound; assumption].
+Qed.
+
+Fixpoint lleqb2 (a b : list (list N)) : bool :=
+  match a, b with
+  | [], [] => true
+  | x :: a', y :: b' => leqb x y && lleqb2 a' b'
+  | _, _ => false
+  end.
+Lemma lleqb2_eq a b : lleqb2 a b = true -> a = b.
+Proof.
+  revert b; induction a as [|x a IH]; intros [|y b]; cbn [lleqb2]; intro H; try reflexivity; try discriminate.
+  apply andb_true_iff in H as [H1 H2]. apply leqb_eq in H1. rewrite H1, (IH b H2). reflexivity.
+Qed.
+
+Section Checker.
+  Variable ip : ipcodec.
+
+  Definition line_okb (l : fline) : bool :=
+    match layout_ok false false (l_items l) with Some false => true | _ => false end
+    && terminator_ok (l_term l)
+    && lleqb2 (map wtoken_octets (items_tokens (l_items l))) (entry_toks ip (l_entry l)).
+
+  Fixpoint lines_okb (s : sp) (ls : list fline) : bool :=
+    match ls with
+    | [] => true
+    | l :: t => line_okb l && (is_nil t || nl_term (l_term l)) &&
+                match l_entry l with
+                | None => lines_okb s t
+                | Some e => entry_okb s e && match denote_entry s e with Some s' => lines_okb s' t | None => true end
+                end
+    end.
+
+  Lemma lines_okb_sound : forall ls s, lines_okb s ls = true -> lines_ok ip s ls.
+  Proof.
+    induction ls as [|l t IH]; intros s H; [exact I|]. cbn [lines_okb lines_ok] in *.
+    apply andb_true_iff in H as [H H3]. apply andb_true_iff in H as [H1 H2].
+    split; [|split].
+    - unfold line_okb in H1. apply andb_true_iff in H1 as [H1 Hc]. apply andb_true_iff in H1 as [Ha Hb].
+      split; [destruct (layout_ok false false (l_items l)) as [[|]|]; try discriminate; reflexivity|].
+      split; [exact Hb|apply lleqb2_eq; exact Hc].
+    - intro Hne. destruct t; [contradiction|]. exact H2.
+    - destruct (l_entry l) as [e|]; [|apply IH; exact H3].
+      apply andb_true_iff in H3 as [He Hr]. split; [apply entry_okb_sound; exact He|].
+      destruct (denote_entry s e); [apply IH; exact Hr|exact I].
+  Qed.
+End Checker.
